@@ -24,13 +24,7 @@ St0 == [T |-> T0, cnt |-> Zeros(T0.n, 0), sum |-> Zeros(T0.n, 0), sq |-> Zeros(T
 Init == st = St0 /\ mode = "told" /\ endc = 0 /\ hist = <<>> /\ splits = <<>>
 
 \* VHCT: per-cell threshold, recomputed at every pull (depth >= 1)
-MulS2(a, b) ==   \* ~ a*b / S^2 for a < 2^15, b < 2^31, S = 2^s
-  LET b1 == b \div 32768  b0 == b % 32768 IN ((((a * b1) * 32768) \div P.S) + ((a * b0) \div P.S)) \div P.S
-TauV(s, c, k) ==
-  LET h == s.T.dep[c]  v == s.var[c]  nb == P.nb[h + 1]
-      X == v + nb + ISqrt(v * v + 2 * v * nb)
-      Y == P.tauy[k + 1][h + 1]
-  IN IF Y >= 1500000000 THEN 1900000000 ELSE (X * Y + P.S * P.S - 1) \div (P.S * P.S)
+TauV(s, c, k) == TauVEst(P, s, c, k)
 
 DoPull ==
   /\ mode = "told" /\ Len(hist) < P.R
